@@ -187,6 +187,15 @@ def run(ctx):
     }
     compare(r5, "is_end_of_word", "offset=0", got, want, fn)
 
+    # ---- R6: what the look-ahead primitive answers from ------------------------------------------------
+    # the helpers see the input only through request_byte_at_offset(k); that it answers with byte k of the stream
+    # also when the window was refilled, moved or shrunk in between is the window law of the reader: C02-R3/R4/R7
+    from . import c02
+    r6 = ctx.rule("C16-R6", "the look-ahead primitive answers from a faithful window: appended reads, shrinking and the observers keep the window (shared with C02-R3/R4/R7)", floor=10)
+    c02.run_r3(ctx, r6)
+    c02.run_r4(ctx, r6)
+    c02.run_r7(ctx, r6)
+
     ctx.extra["exhaustive"] = True
     ctx.assume("DeferredReader::request_byte_at_offset returns the byte at that offset or None at the end of the available data (C02)")
     return (
